@@ -106,6 +106,13 @@
 (declare-fun BindsReceiverEarly (Iface) Bool)
 (declare-fun cursorReplace (Ref Iface World) World)
 (declare-fun cursorInsert (Ref Iface World) World)
+; projections of the two (free) edit constructors, stated by the assumed contracts of Cursor.Replace / Cursor.InsertBefore
+(declare-fun lastReplaced (World) Iface) (declare-fun replBase (World) World)
+(declare-fun lastInserted (World) Iface) (declare-fun insBase (World) World)
+; go/types, abstract: underlying type, the flag word of a basic type, flag test
+(declare-fun typeUnderlying (Iface) Iface)
+(declare-fun basicInfo (Ref) Int)
+(declare-fun bitand (Int Int) Int)
 (declare-fun funcType (Ref) Iface)
 (declare-fun sigTParams (Ref) Ref)
 (declare-fun tplLen (Ref) Int)
